@@ -10,6 +10,7 @@ import (
 	"path/filepath"
 	"strconv"
 	"sync/atomic"
+	"time"
 )
 
 // Env is the run environment handed over by bin/check.
@@ -22,6 +23,14 @@ type Env struct {
 	NShards int
 	Checks  int // rapid case count for this shard (informational; rapid gets the flag)
 	Scale   int // generic multiplier for enumerated domains (1 quick)
+	// SoftDeadline (unix seconds, 0 = none): after it no further case is generated; the cases that
+	// were not run are counted in the evidence, the run stays conclusive for what it did explore
+	SoftDeadline int64
+}
+
+// PastSoftDeadline reports whether the run should stop generating cases.
+func (e *Env) PastSoftDeadline() bool {
+	return e.SoftDeadline > 0 && time.Now().Unix() >= e.SoftDeadline
 }
 
 var env *Env
@@ -43,6 +52,7 @@ func GetEnv() *Env {
 	e.NShards = int(envInt("VERIF_NSHARDS", 1))
 	e.Checks = int(envInt("VERIF_CHECKS", 100))
 	e.Scale = int(envInt("VERIF_SCALE", 1))
+	e.SoftDeadline = envInt("VERIF_SOFT_DEADLINE", 0)
 	if e.Scratch == "" {
 		base := "/dev/shm"
 		if st, err := os.Stat(base); err != nil || !st.IsDir() {
